@@ -15,6 +15,7 @@ import re
 import glob
 import random
 import shutil
+import itertools
 
 from .. import tlc, tracecheck
 from ..core import Machinery
@@ -22,10 +23,10 @@ from ..rigs import tmgr_rig as R
 
 PID = 'C12'
 
-INVARIANTS = ['TypeOK', 'InvRecords', 'InvForwardOnce', 'InvForwardedIfEligible', 'InvNamed', 'InvOnlyAdded',
+INVARIANTS = ['TypeOK', 'InvRecords', 'InvNoSchedulerFailure', 'InvForwardOnce', 'InvForwardedIfEligible', 'InvNamed', 'InvOnlyAdded',
               'InvWaitHeld', 'InvRRBalanced', 'InvBFEligible', 'InvBFUsedReturns', 'InvUsedIsGhost']
 DEVS = ['DevEarlyNotCleared', 'DevBFRaiseSkipsBatch', 'DevAddForgetsState',
-        'DevContradictionRaises', 'DevHalfValidAborts']
+        'DevContradictionRaises', 'DevHalfValidAborts', 'DevKnownPilotRaises']
 # behaviours of 'the code as it was / is': everything but the regression class
 DEVS_ASIS = ['DevEarlyNotCleared', 'DevBFRaiseSkipsBatch', 'DevContradictionRaises',
              'DevHalfValidAborts']
@@ -50,6 +51,10 @@ SCENARIOS = [
                  addst=(ACT,), notif=('DONE',))),
     (True,  scen('bf-3t2p', 'BF', T3, P2, {'t1': 'p1'}, {'t2': 2}, {'p1': 2, 'p2': 1}, half=True)),
     (False, scen('bf-4t2p', 'BF', T4, P2, {'t1': 'p1'}, {'t2': 2}, {'p1': 2, 'p2': 1})),
+    # bulks mixing tasks bound early to an added pilot / a pilot known through a notification
+    # only / an unknown pilot with unbound tasks
+    (True,  scen('rr-4t2p-mixed', 'RR', T4, P2, {'t1': 'p1', 't3': 'p2'}, {}, {p: 2 for p in P2},
+                 addst=(ACT,), notif=(ACT,), maxp=1)),
     # pilot documents which are stale or contradict a final state already notified
     (True,  scen('rr-2t2p-contradict', 'RR', T3[:2], P2, {'t1': 'p1'}, {}, {p: 2 for p in P2},
                  addst=(ACT, 'FAILED'), notif=('DONE', 'CANCELED'), half=True)),
@@ -217,6 +222,30 @@ def directed():
     return out
 
 
+def mixed_bulks():
+    '''one bulk mixing the four kinds of task - bound early to an added pilot (p1), to a
+       pilot known through a state notification only (p2), to an unknown pilot (p3), not
+       bound - in every order, for both policies; the two pilots are added afterwards'''
+    out = []
+    for k, perm in enumerate(itertools.permutations(['p1', 'p2', 'p3', 'none'])):
+        named = {t: p for t, p in zip(T4, perm) if p != 'none'}
+        for pol in ('RR', 'BF'):
+            sc  = scen('mixed', pol, T4, P3, named, {}, {'p1': 2, 'p2': 2, 'p3': 2})
+            sub = [['submit', T4]] if (k + (pol == 'BF')) % 2 == 0 else \
+                  [['submit', T4[:k % 3 + 1]], ['submit', T4[k % 3 + 1:]]]
+            ops = [['pstate', 'p2', ACT], ['add', [['p1', ACT]]]] + sub + \
+                  [['add', [['p2', 'NEW']]], ['add', [['p3', ACT]]], ['tstates', T4, 'DONE']]
+            out.append((rig_cfg(sc), ops))
+    return out
+
+
+# clauses about the fate of a task inside the scheduler, as C05 reports them
+C05_NAME = {'C12.FailedByScheduler' : 'C05.BulkFailedByScheduler',
+            'C12.WaitWithoutPilot'  : 'C05.TaskLostInScheduler',
+            'C12.ForwardOnceMissing': 'C05.TaskStuckInScheduler',
+            'C12.ForwardOnce'       : 'C05.TaskForwardedTwice'}
+
+
 # ------------------------------------------------------------------------------
 D14 = 'early-bound task, pilot added again (base.control_cb leaves _early[pid])'
 D15 = 'backfilling: final notification of an early-bound task (update_tasks raises)'
@@ -224,6 +253,7 @@ D15R = 'backfilling: final notification of a task placed before its pilot was re
 CTR  = ('add_pilots document contradicts a final state already notified '
         '(ValueError from _pilot_state_progress leaves the pilot half added)')
 STALE = 'pilot added with a document older than the state already notified or added'
+BULK  = 'a bulk is failed by the scheduler component (an exception left work(), work_cb fails the bulk)'
 OTHER = 'other history'
 POLICY_NAME = {'RR': 'RoundRobin', 'BF': 'Backfilling'}
 
@@ -231,6 +261,8 @@ POLICY_NAME = {'RR': 'RoundRobin', 'BF': 'Backfilling'}
 def classify(trace, clause):
     '''history class of a failing trace (for known-findings matching)'''
     evs = trace['events']
+    if any(e['ev'] == 'Submit' and e['failed'] for e in evs):
+        return BULK
     if any(e['ev'] == 'AddPilots' and e['raised'] == 'ValueError' for e in evs):
         return CTR
     if clause == 'C12.ForwardOnce':
@@ -307,8 +339,9 @@ def _validate(chk, items, report=True):
             if err.startswith('N.'):
                 outside[err] = outside.get(err, 0) + 1
         for err in errs:
-            if err.split('.')[0] == chk.pid:
-                found.append((len(ops), err, classify(tr, err), cfg, ops, errs, kind))
+            name = C05_NAME.get(err, '') if chk.pid == 'C05' else err
+            if name.split('.')[0] == chk.pid:
+                found.append((len(ops), name, classify(tr, err), cfg, ops, errs, kind))
     if model_dev:
         chk.notes.append('%d of %d traces: some callback of the real scheduler matched the design '
                          'model under no setting of the known deviations (M.Conformance)'
@@ -328,7 +361,33 @@ def _validate(chk, items, report=True):
 
 
 # ------------------------------------------------------------------------------
+def run_c05(chk, tier, seed):
+    '''C05 share: the scheduler fails nobody and loses nobody, whatever a bulk mixes.
+       A cheap subset: one small exhaustive scenario, the directed and mixed-bulk
+       histories, some seeded random ones; the clauses about task fate only'''
+    rng = random.Random(seed * 7919 + 5)
+    sc  = [s for _, s in SCENARIOS if s['name'] == 'rr-4t2p-mixed'][0]
+    res = tlc.run('TmgrSched', 'MC', 'MC.cfg', workers=8, timeout=600, extra_files=mc_files(sc))
+    chk.add_tlc(res, 'exhaustive:' + sc['name'])
+    if not res.ok:
+        raise Machinery('design model TmgrSched violates %s in %s' % (res.violated, sc['name']))
+    items = [(cfg, ops, R.TmgrRig(**cfg).run(ops), 'mixed bulk') for cfg, ops in mixed_bulks()]
+    items += [(cfg, ops, R.TmgrRig(**cfg).run(ops), 'directed history') for cfg, ops in directed()]
+    for i in range(60 if tier == 'quick' else 600):
+        cfg = random_cfg(rng)
+        ops, tr = R.TmgrRig(**cfg).run_random(rng.randrange(10 ** 9), nops=rng.randint(6, 14), p_half=0.0)
+        items.append((cfg, ops, tr, 'seeded random'))
+    _validate(chk, items)
+    chk.evaluations += sum(len(it[1]) for it in items)
+    chk.assumptions += ['bulks reach work() through the real Component.work_cb: an exception leaving '
+                        'work() fails the whole bulk, as in production',
+                        'a pilot is added, known through a state notification only, or unknown; '
+                        'commands and notifications as for C12']
+
+
 def run(chk, tier, seed):
+    if chk.pid == 'C05':
+        return run_c05(chk, tier, seed)
     rng   = random.Random(seed * 7919 + 12)
     quick = tier == 'quick'
 
@@ -360,7 +419,9 @@ def run(chk, tier, seed):
                   ('DevHalfValidAborts', 'rr-2t2p-contradict', 'InvOnlyAdded'),
                   ('DevHalfValidAborts', 'rr-2t2p-contradict', 'InvForwardedIfEligible'),
                   ('DevHalfValidAborts', 'bf-3t2p', 'InvOnlyAdded'),
-                  ('DevHalfValidAborts', 'bf-3t2p', 'InvRecords')]
+                  ('DevHalfValidAborts', 'bf-3t2p', 'InvRecords'),
+                  ('DevKnownPilotRaises', 'rr-4t2p-mixed', 'InvNoSchedulerFailure'),
+                  ('DevKnownPilotRaises', 'bf-3t2p', 'InvNoSchedulerFailure')]
         for dev, sname, inv in expect:
             res = tlc.run('TmgrSched', 'MC', 'MC.cfg', workers=16, timeout=900,
                           extra_files=mc_files(byname[sname], devs=[dev], invariants=[inv]))
@@ -397,6 +458,8 @@ def run(chk, tier, seed):
     # ---- 4. directed histories and seeded random callback sequences ---------------
     for cfg, ops in directed():
         items.append((cfg, ops, R.TmgrRig(**cfg).run(ops), 'directed history'))
+    for cfg, ops in mixed_bulks():
+        items.append((cfg, ops, R.TmgrRig(**cfg).run(ops), 'mixed bulk'))
 
     nrand = 250 if quick else 4000
     for i in range(nrand):
